@@ -187,14 +187,18 @@ def run_property(mod, tier: str, seed: int, replay: str | None = None) -> int:
             cases += ex
             res.exhaustive = len(ex)
 
+    known = core.load_known(prop)
+
+    def is_known(f):
+        return f[1] == "oracle" and any(k.get("signature") == f[2][0].split(":")[0] and mod.matches_known(k, f[0]) for k in known)
+
     found = []
     B = 400
     for a in range(0, len(cases), B):
         found += evaluate(mod, cases[a:a + B], res)
-        if len(found) > 20:
+        if len([f for f in found if not is_known(f)]) > 20:      # witnesses of recorded findings do not stop the run early
             break
 
-    known = core.load_known(prop)
     reported_known = set()
     nrep = 0
     oracle_found = [f for f in found if f[1] == "oracle"]
